@@ -29,7 +29,7 @@ ASSUMPTIONS = ['fetch margins (fragment_size) are at least the longest simulated
                'worker schedules are sampled (distinct completion orders observed are counted)']
 MIN_NONTRIVIAL = {'quick': 40, 'thorough': 2500}
 REQUIRED_MONITORS = ['run:serial', 'run:restricted_to_one_contig', 'lib:contig_with_placed_unmapped_pairs_only', 'run:contig_per_process', 'run:tiling_pool', 'run:tiling_nopool', 'records:compared', 'jobs:observed',
-                     'ownership:records_checked', 'edge:sites_on_bin_edges', 'lib:fragments_up_to_900bp', 'lib:hard_clipped_fragments', 'run:tiling_with_job_bed_file', 'run:one_contig_skipped', 'lib:empty_contig_between_populated_ones', 'lib:contig_name_with_separator_characters', 'edge:molecules_on_the_first_or_last_bases_of_a_contig']
+                     'ownership:records_checked', 'edge:sites_on_bin_edges', 'lib:fragments_up_to_900bp', 'lib:hard_clipped_fragments', 'run:tiling_with_job_bed_file', 'run:one_contig_skipped', 'lib:empty_contig_between_populated_ones', 'lib:contig_name_with_separator_characters', 'edge:molecules_on_the_first_or_last_bases_of_a_contig', 'history:earlier_library_at_the_same_path_tagged_in_this_process']
 SHARD_TIMEOUT = {'quick': 900, 'thorough': 7200}
 IGNORE_TAGS = {'mi', 'ix'}
 
@@ -253,6 +253,37 @@ def run_case(case):
 
         def spy(**kw):
             captured.update(kw)
+        if case['i'] % 4 == 1:
+            # history: an earlier version of the library (half of the fragments) lived at the very same path and was tagged by the tiling code
+            # inside this process; it is gone now - nothing of it may come back
+            os.rename(bam, bam + '.keep')
+            os.rename(bam + '.bai', bam + '.keep.bai')
+            write_bam(bam, gen.refs, [x for x in recs if F.id_from_name(x['name']) % 2 == 0])
+            cap0 = {}
+            btm.tag_multiome_multi_processing = lambda **kw: cap0.update(kw)
+            try:
+                with contextlib.redirect_stdout(io.StringIO()), contextlib.redirect_stderr(io.StringIO()):
+                    btm.run_multiome_tagging_cmd([bam, '-o', os.path.join(dd, 'unused0.bam'), '-method', method, '-umi_hamming_distance', '1', '--multiprocess',
+                                                  '-temp_folder', dd])
+            finally:
+                btm.tag_multiome_multi_processing = real
+            kw0 = dict(cap0)
+            kw0['molecule_iterator_args'] = dict(cap0['molecule_iterator_args'])
+            os.makedirs(os.path.join(dd, 'prelude'))
+            kw0.update(out_bam_path=os.path.join(dd, 'prelude', 'old.bam'), one_contig_per_process=False, bp_per_segment=max(seg, 1000), bp_per_job=5000,
+                       fragment_size=1000, use_pool=False, n_threads=1, temp_folder_root=dd)
+            try:
+                with contextlib.redirect_stdout(io.StringIO()), contextlib.redirect_stderr(io.StringIO()):
+                    btm.tag_multiome_multi_processing(**kw0)
+            except Exception:
+                pass
+            T.reap_pools()
+            for fn_ in (bam, bam + '.bai'):
+                if os.path.exists(fn_):
+                    os.remove(fn_)
+            os.rename(bam + '.keep', bam)
+            os.rename(bam + '.keep.bai', bam + '.bai')
+            acc.count('history:earlier_library_at_the_same_path_tagged_in_this_process')
         btm.tag_multiome_multi_processing = spy
         try:
             with contextlib.redirect_stdout(io.StringIO()), contextlib.redirect_stderr(io.StringIO()):
